@@ -876,10 +876,10 @@ func (c *c08) compare() {
 	// stress class only when no core tuple of this run shows the same
 	// deviation, so reports are collected first and signed afterwards:
 	//   core:   C08:<lang>-vs-<x>:<component>:<detail>
-	//   stress: C08:<lang>-vs-<x>:<component>:<class>:<detail>
+	//   stress: C08:<lang>-vs-<x>:<component>:<class>:<prefix shape>:<detail>
 	type pending struct {
-		head, detail, stress, what string
-		witness                    map[string]interface{}
+		head, detail, stress, shape, what string
+		witness                           map[string]interface{}
 	}
 	var reports []pending
 	coreDevs := map[string]bool{}
@@ -913,11 +913,20 @@ func (c *c08) compare() {
 						"operation": op.Name, "reference": want, "topics": topics, "batch": u.B.Name,
 						"reproduce": fmt.Sprintf("struct Pay { 1: i32 n } + the scope above in x.frugal; frugal -gen <go|java|dart|py|py:asyncio|py:tornado> -delim '%s' x.frugal", u.Delim),
 					}
+					// prefix shape: the templates differ per shape (no prefix / plain
+					// literal / printf-style template), so stress signatures carry it
+					shape := "prefix-with-variables"
+					switch {
+					case len(sp.Tokens) == 0:
+						shape = "no-prefix"
+					case len(sp.Vars) == 0:
+						shape = "static-prefix"
+					}
 					report := func(head, detail, what string) {
 						if stress == "" {
 							coreDevs[head+":"+detail] = true
 						}
-						reports = append(reports, pending{head, detail, stress, what, witness})
+						reports = append(reports, pending{head, detail, stress, shape, what, witness})
 					}
 					identical := true
 					for _, l := range langs {
@@ -989,7 +998,7 @@ func (c *c08) compare() {
 	for _, r := range reports {
 		sig := r.head + ":" + r.detail
 		if r.stress != "" && !coreDevs[sig] {
-			sig = r.head + ":" + r.stress + ":" + r.detail
+			sig = r.head + ":" + r.stress + ":" + r.shape + ":" + r.detail
 		}
 		sigCount[sig]++
 		run.Violation(sig, r.what, r.witness)
